@@ -451,7 +451,7 @@ Engine MakeEngine()
     e.run = Run;
     e.describe = Describe;
     e.chunk = 1;
-    e.quick_runs = 48;
+    e.quick_runs = 160;
     e.thorough_runs = 400;
     e.quick_budget_s = 80;
     e.thorough_budget_s = 1500;
